@@ -3,7 +3,7 @@ CHECK = {
     "harness": "h-c19",
     "translators": [],
     "level": "proof",
-    "technique": "translation_validation",
+    "technique": "Lean 4 proof of a certificate checker (derivative matcher = denotational language; bisimulation certificate sound for all words) + translation validation: the proved checker is run on every compiled and shipped automaton; base64/parser rows proved against executable models tied by correspondence",
     "rule": "one `equiv` request per generated regular expression (real combinators, internal tree dumped by a "
             "hook, compiled Automaton dumped): the Lean checker decides language equality for ALL words; "
             "non-trivial when the automaton has >1 state; distinctness by hash of the request line",
